@@ -263,7 +263,7 @@ def materialise(system, tracedir, history, stream_of, base_clock=1000, keep_outp
     return tracedir
 
 
-def run_tool(exe, args, timeout=20, env_extra=None, nofile=None):
+def run_tool(exe, args, timeout=20, env_extra=None, nofile=None, cwd=None):
     """nofile: soft limit on open descriptors for the tool (RLIMIT_NOFILE)"""
     env = dict(os.environ)
     env["ASAN_OPTIONS"] = "detect_leaks=0:abort_on_error=1"
@@ -279,7 +279,7 @@ def run_tool(exe, args, timeout=20, env_extra=None, nofile=None):
                 hard = resource.getrlimit(resource.RLIMIT_NOFILE)[1]
                 resource.setrlimit(resource.RLIMIT_NOFILE, (nofile, hard))
         r = subprocess.run([exe] + list(args), stdout=subprocess.PIPE, stderr=subprocess.PIPE,
-                           timeout=timeout, env=env, preexec_fn=pre)
+                           timeout=timeout, env=env, preexec_fn=pre, cwd=cwd)
         return r.returncode, r.stdout.decode("latin1"), r.stderr.decode("latin1")
     except subprocess.TimeoutExpired as e:
         return "timeout", (e.stdout or b"").decode("latin1"), (e.stderr or b"").decode("latin1")
